@@ -798,6 +798,73 @@ class HaltTiming(Harness):
             g.observe(f.price)
 
 
+class RoundsUnderHalt(Harness):
+    """C03 at system level: with a trading halt rule configured, the rounds the runner starts never fail."""
+    name = "RoundsUnderHalt"
+    title = "matching rounds started by the real runner around a trading halt terminate without raising"
+    what_symbolic = "prices of the orders of the step in which the halt may fire, the halt rate, activation order"
+    nontrivial_event = "a halt fired"
+    reach = ("nontrivial", "order-after-halt-in-same-step", "cross-on-second-target-after-resume")
+    bounds = {"quick": "(a) one market, seller of 2 lots and two buyers in the step of the halt; (b) two target markets of "
+                       "one rule, halt on the first, resumption, then crossing quotes on the second; halt length 1",
+              "thorough": "same"}
+    agreement_runs = 4
+
+    def cases(self, tier):
+        return [{"kind": "same-step"}, {"kind": "two-targets"}]
+
+    def run(self, g, case):
+        two = case["kind"] == "two-targets"
+        markets = {f"M{i}": {"class": "Market", "tickSize": 1, "marketPrice": 300} for i in range(2 if two else 1)}
+        sessions = [rn.session(0, 4, True, True, maxNormalOrders=3, events=["HALT"])]
+        st = rn.base_settings(n_agents=2 if two else 3, sessions=sessions, markets=markets,
+                              extra={"HALT": {"class": "TradingHaltRule", "targetMarkets": list(markets),
+                                              "triggerChangeRate": 0.5, "haltingTimeLength": 1}})
+        if two:
+            # t=1: buyer and seller on M0 at solver-chosen prices (may halt); t=3 (after the resumption): crossing
+            # quotes at 300 on M1
+            menu = {"acts": ["limit"], "vol_fixed": 1, "price_hi": 1000, "price_by_time": {"1": "sym", "default": 300},
+                    "market_by_time": {"1": 0, "3": 1},
+                    "per_agent": {"0": {"side": "B", "acts_by_time": {"0": ["none"], "1": ["limit"], "2": ["none"], "3": ["limit"]}},
+                                  "1": {"side": "S", "acts_by_time": {"0": ["none"], "1": ["limit"], "2": ["none"], "3": ["limit"]}}}}
+        else:
+            menu = {"acts": ["limit"], "price_hi": 1000, "price_by_time": {"1": "sym", "default": 300},
+                    "per_agent": {"0": {"side": "B", "vol_fixed": 1, "active": [1, 1]},
+                                  "1": {"side": "S", "vol_fixed": 2, "active": [1, 1]},
+                                  "2": {"side": "B", "vol_fixed": 1, "active": [1, 1]}}}
+        state = {"halted_at": None}
+
+        def on_event(kind, agent, p):
+            ctx = rn.RUN
+            if ctx.sim is None:
+                return
+            if kind == "submitted":
+                m = ctx.sim.id2market[p.market_id]
+                if any(not x.is_running for x in ctx.sim.markets) and state["halted_at"] is None:
+                    state["halted_at"] = p.time
+                if state["halted_at"] is not None and p.time == state["halted_at"]:
+                    g.note("order-after-halt-in-same-step")
+                if two and p.market_id == 1 and p.time == 3 and state["halted_at"] is not None:
+                    g.note("cross-on-second-target-after-resume")
+            if kind == "log-direct" and isinstance(p, MarketStepEndLog) and state["halted_at"] is None and \
+                    any(not x.is_running for x in ctx.sim.markets):
+                state["halted_at"] = p.market.get_time()
+        ctx = rn.make_run(g, st, menu, on_event=on_event)
+        sim = ctx.sim
+        r = g.real("r", 0, 1, lo_strict=True, hi_strict=True)
+        for e in sim.events:
+            if type(e).__name__ == "TradingHaltRule":
+                e.trigger_change_rate = r
+        ctx.runner._run()          # any exception escaping a round is reported by the engine with its call site
+        if state["halted_at"] is not None or any(not x.is_running for x in sim.markets):
+            g.note("nontrivial")
+        # (a book left crossed by orders accepted during the halt is legitimate: rounds follow acceptances only)
+
+
+class C03_RoundsUnderHalt(RoundsUnderHalt):
+    pass
+
+
 class C13_HookDispatch(HookDispatch):
     pass
 
